@@ -19,7 +19,11 @@ RULE = ('(file, option) pairs run through GNU readelf 2.40 and `python scripts/r
         'repository root, compared with a vendored frozen copy of the project\'s compare_output. Kinds: (corpus) the '
         'regression corpus x the 18 options of the project\'s runner with its own skip rules (quick: a seed-rotated third '
         'covering every option; thorough: all); (compiled) gcc shared/relocatable objects of /verif/corpus/src at DWARF 2-5 x '
-        '-O0/-O2, clang objects for 8 targets at DWARF 2/4 (+5 for four of them), g++/clang++/gfortran/rustc objects; '
+        '-O0/-O2, clang objects for 8 targets at DWARF 2/4 (+5 for four of them), g++/clang++/gfortran/rustc objects, fully linked '
+        'programs (PIE, non-PIE, C++, clang; linker options for hash style, RELRO, build id, rpath, version script), their objcopy/'
+        'strip products, -m32/-mx32/-gz/-gdwarf64/-fdebug-types-section variants; (system) programs and libraries of the image '
+        '(libc, libm, libstdc++, libgcc_s, ld.so, ls, readelf, gdb) with the header, symbol, dynamic, relocation, note, version '
+        'and frame options; '
         '(descr) one synthesized file per entry of the clone\'s ELF description tables (e_machine, e_type, OS ABI, machine flags, '
         'sh_type, sh_flags, p_type, p_flags, symbol type/bind/visibility/shndx, dynamic tags per machine/OS, DT_FLAGS, '
         'DT_FLAGS_1, DT_MIPS_FLAGS, note types and GNU property bits, relocation types of 9 machines) printed with the option '
@@ -35,14 +39,18 @@ ASSUMPTIONS = [
     'for a description-table entry, if GNU readelf itself prints a placeholder (<unknown>, <processor specific>, a bare '
     'hex code) the oracle has no name and the entry is unjudged; differences recorded in oracle_gaps_C18.json '
     'could not be decided offline and are unjudged as well',
-    'the tolerated differences are exactly those of the project\'s compare_output (vendored copy)',
+    'the tolerated differences are exactly those of the project\'s compare_output (vendored copy), except that the last legend '
+    'line is compared after removing the three items the project tolerates (R (retain), D (mbind), l (large))',
+    'when GNU readelf exits with an error for a file, the pair is judged only if both programs still print the same; otherwise '
+    'the file counts as outside the envelope (unjudged, counted under skipped)',
+    'an OPEN finding that is a fixed difference of wording (TEXT_FINDINGS) is rewritten in the GNU output before comparison and counted',
     'base-address selection entries of .debug_loc/.debug_ranges are compared after normalisation: readelf 2.40 prints "offset ffffffff '
     'base (base address)", 2.41 and the clone "offset base (base address)"; the base value is compared modulo zero padding',
     'string dumps (-p) are generated from 7-bit bytes without DEL: bytes >= 0x80 depend on the locale and GNU prints DEL as "^" + 0xbf',
-    'symbol tables are generated without STT_GNU_IFUNC / STB_GNU_UNIQUE and notes without annobin/stapsdt owners: the clone\'s '
-    'description tables have no entries for them',
+    'notes are generated without annobin/stapsdt owners, RELR sections are not displayed by the clone, core-file notes live in '
+    'segments the clone does not print: files with those features are skipped for the option concerned',
 ]
-KINDS = {'corpus': (288, 1011, 0), 'compiled': (28, 63, 1), 'descr': (64, 64, 2), 'dwdescr': (40, 40, 1), 'generated': (260, 2600, 4)}
+KINDS = {'corpus': (288, 1011, 0), 'system': (22, 64, 1), 'compiled': (28, 63, 1), 'descr': (64, 64, 2), 'dwdescr': (40, 40, 1), 'generated': (260, 2600, 4)}
 FLOOR = {'quick': 150, 'thorough': 600}
 CASE_TIMEOUT = 1200
 OPTIONS = ['-e', '-d', '-s', '-n', '-r', '-x.text', '-p.shstrtab', '-V', '--debug-dump=info', '--debug-dump=decodedline',
@@ -218,6 +226,26 @@ def corpus_pairs(extra=False):
     files = sorted(f for f in glob.glob(os.path.join(REPO, 'test', 'testfiles_for_readelf', '*.elf')))
     files = [f for f in files if os.path.getsize(f) > 0]
     return [(f, o) for f in files for o in OPTIONS] + ([(f, o) for f in files for o in EXTRA_OPTIONS] if extra else [])
+
+
+SYSTEM_FILES = ['/lib/x86_64-linux-gnu/libm.so.6', '/lib/x86_64-linux-gnu/libgcc_s.so.1', '/usr/bin/ls', '/lib/x86_64-linux-gnu/libc.so.6',
+                '/usr/lib/x86_64-linux-gnu/libstdc++.so.6', '/lib64/ld-linux-x86-64.so.2', '/usr/bin/readelf', '/usr/bin/gdb']
+SYSTEM_OPTIONS = ['-e', '-s', '-d', '-r', '-n', '-V', '--debug-dump=frames', '--debug-dump=frames-interp']
+
+
+def system_pairs():
+    """Programs and libraries of the image itself (linked by the distribution's toolchain): a workload no generator of mine
+    shaped. A file that is absent is skipped; features the clone has no code for are skipped with a counted reason."""
+    return [(f, o) for f in SYSTEM_FILES for o in SYSTEM_OPTIONS]
+
+
+def system_skip(path, option):
+    names, mach, etype = section_names(path)
+    if option == '-r' and '.relr.dyn' in names:
+        return 'the clone has no display of RELR relocation sections'
+    if option == '-n' and '.note.stapsdt' in names:
+        return 'SystemTap probe notes are not decoded by the clone'
+    return None
 
 
 def load_gaps():
@@ -1337,6 +1365,20 @@ def run_case_inner(kind, idx, rng, sh):
             sh.skip('skipped by the project\'s own runner')
             return
         judge(sh, 'corpus', path, option, os.path.basename(path), 'corpus')
+    elif kind == 'system':
+        pairs = system_pairs()
+        k = (idx * 3 + sh.seed % 3) if sh.tier == 'quick' else idx
+        if k >= len(pairs):
+            return
+        path, option = pairs[k]
+        if not os.path.exists(path):
+            sh.skip('no such file in this image')
+            return
+        why = system_skip(path, option)
+        if why:
+            sh.skip(why)
+            return
+        judge(sh, 'system', path, option, os.path.basename(path), 'system')
     elif kind == 'compiled':
         run_compiled(idx, rng, sh)
     elif kind == 'dwdescr':
